@@ -88,6 +88,9 @@ void fiber_scheduler_schedule(fiber_scheduler_t* scheduler,
                               fiber_t* the_fiber) {
   assert(scheduler);
   assert(the_fiber);
+#ifdef LIBFIBER_VERIF
+  verif_scheduled(scheduler, the_fiber);
+#endif
   wsd_work_stealing_deque_push_bottom(
       ((fiber_scheduler_wsd_t*)scheduler)->schedule_from, the_fiber);
 }
